@@ -7,11 +7,12 @@ import (
 
 func init() {
 	runner.RegisterScenario(&runner.Scenario{
-		Name: "l0/frames",
-		Real: []string{"transport.TCPConnection.SendMessageBatch / TCPSnapshotConnection.SendChunk / writeMessage", "transport readMagicNumber / readMessage / requestHeader", "transport serveConn (complete receive loop, on a sample of streams)", "raftpb codecs (Marshal/MarshalTo/Unmarshal/Size/SizeUpperLimit)", "client.Session codec", "rsm.GetEncoded/GetPayload"},
-		Stub: []string{"net.Conn (in-memory byte buffer, one goroutine, deadlines ignored)", "value generator (boundary heavy sample of field values)"},
-		Rule: "enum=0: one run = 3-10 tape-generated values of the wire/disk types checked for round trip and size bounds, then 1-4 message batches/chunks framed by the real senders and received intact and under 12-51 tape-chosen damages (single bit, 2-3 bits, burst <= 32 bits, truncation; per offset class magic/method/size/header crc/payload crc/payload) plus all single-bit flips and cuts of one frame if it is <= 160 bytes; non-trivial = at least 3 values and 10 damaged streams; distinct = distinct hash of (value kinds, stream length, fault count). enum=1: run index _i selects one of 96 fixed small frames; every single-bit flip and every truncation point of it is judged; distinct = frame index",
-		Run:  frames.Run,
+		Name:     "l0/frames",
+		RealTime: true,
+		Real:     []string{"transport.TCPConnection.SendMessageBatch / TCPSnapshotConnection.SendChunk / writeMessage", "transport readMagicNumber / readMessage / requestHeader", "transport serveConn (complete receive loop, on a sample of streams)", "raftpb codecs (Marshal/MarshalTo/Unmarshal/Size/SizeUpperLimit)", "client.Session codec", "rsm.GetEncoded/GetPayload"},
+		Stub:     []string{"net.Conn (in-memory byte buffer, one goroutine, deadlines ignored)", "value generator (boundary heavy sample of field values)"},
+		Rule:     "enum=0: one run = 3-10 tape-generated values of the wire/disk types checked for round trip and size bounds, then 1-4 message batches/chunks framed by the real senders and received intact and under 12-51 tape-chosen damages (single bit, 2-3 bits, burst <= 32 bits, truncation; per offset class magic/method/size/header crc/payload crc/payload) plus all single-bit flips and cuts of one frame if it is <= 160 bytes; non-trivial = at least 3 values and 10 damaged streams; distinct = distinct hash of (value kinds, stream length, fault count). enum=1: run index _i selects one of 96 fixed small frames; every single-bit flip and every truncation point of it is judged; distinct = frame index",
+		Run:      frames.Run,
 	})
 	runner.RegisterCheck(&runner.Check{Property: "C13", Level: "fault_enumeration", QuickBudgetS: 50, ThoroughS: 700,
 		Parts: []runner.Part{
